@@ -114,11 +114,24 @@ func runEntrypoints(rc *RunCtx) *Violation {
 	simrt.RunInline(func() {
 		base := simrt.Depth()
 		simrt.OpBegin(20000000) // no clause depends on it; it only keeps a pathological parse from stalling the batch
-		if simrt.Choose(5) == 1 {
-			v = entryLexDefs(rc)
-		} else {
-			v = entryParser(rc)
-		}
+		func() {
+			// the cap can also run out while the harness itself calls a small instrumented helper
+			// (Token.EOF, Position.Advance) between two calls: the run is discarded all the same
+			defer func() {
+				if p := recover(); p != nil {
+					if _, ok := p.(simrt.CapExceeded); ok {
+						capAbort.Store(true)
+						return
+					}
+					panic(p)
+				}
+			}()
+			if simrt.Choose(5) == 1 {
+				v = entryLexDefs(rc)
+			} else {
+				v = entryParser(rc)
+			}
+		}()
 		steps, _, _ := simrt.OpEnd(base)
 		rc.agg.SimSteps += steps
 	})
